@@ -109,6 +109,14 @@ class MRes:
             return {k: v.replace("%2F", "/").replace("%25", "%") for k, v in m.groupdict().items()}
         if self.kind == "static":
             if path == self.tmpl or path.startswith(self.tmpl.rstrip("/") + "/"):
+                # a static mount only claims what is still below it once dot segments are resolved
+                # ("/st/../stuff/x" is not below "/st", although its text starts with it)
+                import posixpath
+
+                norm = posixpath.normpath(path)
+                pfx = self.tmpl.rstrip("/")
+                if norm != pfx and not norm.startswith(pfx + "/"):
+                    return None
                 return {"filename": path[len(self.tmpl.rstrip("/")) + 1:]}
             return None
         return None
@@ -264,7 +272,9 @@ def request_paths(extra: bool) -> list[str]:
             if n <= 2:
                 paths.add(p + "/")
     paths |= {"/a//b", "/a/%2F/b", "/a%2Fb", "/a%252Fb", "/%41", "/%61", "/a/%7Bx%7D", "/a/{x}", "/a/b/c/d", "/a/%25", "/A", "/a/", "/a/b/",
-              "/a%20b/1", "/%C3%A9/1", "/a.b/x", "/ab/a/b", "/a/1/2/3", "/p1", "/a/p1", "/a/1s", "/a/ps"}
+              "/a%20b/1", "/%C3%A9/1", "/a.b/x", "/ab/a/b", "/a/1/2/3", "/p1", "/a/p1", "/a/1s", "/a/ps",
+              # dot segments: a sibling whose name merely starts with a mount prefix, and paths that leave and re-enter it
+              "/a/../ab/b", "/a/../ab", "/a/../as", "/s/../sx/b", "/a/b/../../ab/a", "/a/./b", "/a/../a/b", "/a/b/../b", "/a/..", "/a/b/.."}
     return sorted(paths)
 
 
